@@ -137,6 +137,9 @@ def forEachSteps {α ρ σ : Type} (l : List α) (start : Int) (init : σ) (f : 
     | .brk s => (none, s)
     | .ret r => (some r, init)
 
+/-- `l[i]` on a list of records (out of range: Go panics; junk: the default record) -/
+def listAt {α : Type} [Inhabited α] (l : List α) (i : Int) : α := if 0 ≤ i then l.getD i.toNat default else default
+
 /-- indices of `for i := a; i < b; i++` -/
 def rangeUp (a b : Int) : List Int := (List.range (b - a).toNat).map (fun k => a + Int.ofNat k)
 
